@@ -139,7 +139,7 @@ def fault_seeds(prog):
 PHASES = ["used_rand", "pre", "bounds1", "rewrite", "bounds2", "randinfo", "solve", "rollback", "post"]
 
 
-@rule("RN2", ["C03", "C16", "C17", "C02", "C04", "C01", "C08", "C09", "C14", "C15"], "phase order of do_randomize as dominance facts; rollback in finally on every exit; overrides never outlive a call",
+@rule("RN2", ["C03", "C16", "C17", "C02", "C04", "C01", "C08", "C09", "C14", "C15", "C06"], "phase order of do_randomize as dominance facts; rollback in finally on every exit; overrides never outlive a call",
       engine="SAI+CG", floor=5)
 def rn2(prog, rr):
     dr = prog.method("Randomizer", "do_randomize")
@@ -283,6 +283,22 @@ def rn2(prog, rr):
         for t in ("solve", "rollback", "post", "pre", "used_rand"):
             if t not in s.u:
                 rr.finding(dr, dr.node, "Randomizer.do_randomize", "RN2: a normal exit of do_randomize skips phase '%s'" % t, text="exit without " + t)
+    # everything the rewriting builders are applied to is rolled back: the roots AND the call's inline constraints (the only way
+    # to the dynamic-constraint blocks they reference, which live on after the call)
+    def loop_iters(k):
+        out = set()
+        for n in walk_local(dr.node):
+            if isinstance(n, ast.Call) and kind.get(id(n)) == k:
+                lp = _enclosing_for(dr.node, n)
+                if lp is not None:
+                    out.add(norm(lp.iter))
+        return out
+    rw, rb = loop_iters("rewrite"), loop_iters("rollback")
+    rr.inst("rewrites applied over %s; rollback over %s" % (sorted(rw), sorted(rb)))
+    for it in sorted(rw - rb):
+        rr.finding(dr, dr.node, "Randomizer.do_randomize", "SH3: ArrayConstraintBuilder/DistConstraintBuilder rewrite the constraints reachable from `%s` "
+                   "but nothing rolls those back: an expansion installed in a dynamic-constraint block (reached only through the inline "
+                   "constraints that reference it) stays there and later calls solve it over the old list elements" % it, text="no rollback over " + it)
     rr.inst("do_randomize exits: %d normal, %d exceptional path classes" % (len(outs.fall | outs.ret), n_exc))
     rr.require(n_exc > 0, "no exceptional exit modelled for do_randomize (SolveFailure edge lost)")
     rr.sample({"function": "Randomizer.do_randomize", "phases": PHASES})
